@@ -251,3 +251,7 @@ mod tests {
         })
     }
 }
+
+#[cfg(kani)]
+#[path = "/verif/kani/rten-model-file/header.rs"]
+mod verif_kani;
